@@ -52,6 +52,7 @@ type trSpec struct {
 	Actions map[string]int               // statement text -> action id
 	Rets    map[string]int               // non-boolean, non-integer return expressions -> id
 	Ignore  []string                     // extra regexps for statements without effect on the model
+	After   string                       // when set: the unit is what follows the first top-level statement with this text (the tail of a long function)
 	Skips   map[string]string            // nested loop header -> boolean atom: the nested loop ended by `continue <label of the unit's loop>` (the rest of the body is skipped)
 }
 
@@ -666,7 +667,21 @@ func translateOne(repo string, s *trSpec) (term string, err error) {
 	for _, p := range append(append([]string{}, defaultIgnore...), s.Ignore...) {
 		t.ignore = append(t.ignore, regexp.MustCompile(p))
 	}
-	term = t.stmts(body.List, nil, renv{}, func(a []int, _ renv) string { return leaf(a, "Fall") })
+	list := body.List
+	if s.After != "" {
+		at := -1
+		for i, st := range list {
+			if t.text(st) == s.After {
+				at = i
+				break
+			}
+		}
+		if at < 0 {
+			return "", fmt.Errorf("%s has no top-level statement %q", s.Func, s.After)
+		}
+		list = list[at+1:]
+	}
+	term = t.stmts(list, nil, renv{}, func(a []int, _ renv) string { return leaf(a, "Fall") })
 	return term, nil
 }
 
